@@ -14,6 +14,7 @@ import Ladybug.Proofs.C18Lemmas
 import Ladybug.Proofs.C18Table
 import Ladybug.Proofs.C18Wind
 import Ladybug.Proofs.C18Hist
+import Ladybug.Proofs.C18Query
 import Ladybug.Gen.LazyDeps
 
 open Lazy
@@ -330,6 +331,109 @@ def toyShared : ClassTable :=
 theorem C18_shared_slot_counterexample_shape :
     toyShared.oneExpr = false ∧ Lazy.runT toyShared .empty [.get 0, .get 1] = [.ok, .alias 0] := by
   decide
+
+/-! ### round 4: read-only query methods between reads -/
+
+section query
+variable {Cfg Slot Val Field FVal Q Ans : Type} [DecidableEq Slot]
+
+/-- HISTORIES WITH QUERY METHODS.  For every history of reads, setter calls (accepted or refused) and calls of
+read-only query methods (methods that load cached attributes, filling them like a read, and answer with a
+function of the settings and the loaded values - `is_time_included`, `filter_by_*`, `ticks_from_angles` ...),
+every step outputs what the specification says: a read its defining expression on the current public state, a
+query method its answer function on that state.  Frame hypothesis as in `C18_history_refines_fresh`. -/
+theorem C18_query_history_spec (S : Spec Cfg Slot Val Field FVal) (H : Frame S)
+    (valid : Field → FVal → Cfg → Bool) (Qs : Q → Query Cfg Slot Val Ans) (c : Cfg)
+    (ops : List (QOp Slot Field FVal Q)) :
+    (runQ S valid Qs (fresh c) ops).1 = expectedQ S valid Qs c ops :=
+  (runQ_spec S H valid Qs ops (fresh c) (coh_fresh S c)).1
+
+/-- … hence every observation after such a history equals that of a fresh object built from the final public
+state, and that state is the one of the history WITHOUT its query-method calls (they are not settings). -/
+theorem C18_query_history_refines_fresh (S : Spec Cfg Slot Val Field FVal) (H : Frame S)
+    (valid : Field → FVal → Cfg → Bool) (Qs : Q → Query Cfg Slot Val Ans) (c : Cfg)
+    (ops : List (QOp Slot Field FVal Q)) (i : Slot) :
+    (read S (runQ S valid Qs (fresh c) ops).2 i).1 =
+      (read S (fresh (publicCfgQ S valid c (dropUse ops))) i).1 := by
+  obtain ⟨_, hcoh, hcfg⟩ := runQ_spec S H valid Qs ops (fresh c) (coh_fresh S c)
+  rw [(read_spec S _ i hcoh).1, (read_spec S _ i (coh_fresh S _)).1, hcfg, publicCfgQ_dropUse]
+  rfl
+
+/-- The answer of a query method after any history is its answer on a fresh object built from the final public
+state: what was read, asked or refused before does not matter. -/
+theorem C18_query_answer_eq_fresh (S : Spec Cfg Slot Val Field FVal) (H : Frame S)
+    (valid : Field → FVal → Cfg → Bool) (Qs : Q → Query Cfg Slot Val Ans) (c : Cfg)
+    (ops : List (QOp Slot Field FVal Q)) (q : Q) :
+    (stepQ S valid Qs (runQ S valid Qs (fresh c) ops).2 (.use q)).2 =
+      (stepQ S valid Qs (fresh (publicCfgQ S valid c ops)) (.use q)).2 := by
+  obtain ⟨_, hcoh, hcfg⟩ := runQ_spec S H valid Qs ops (fresh c) (coh_fresh S c)
+  have h1 := (stepQ_spec S H valid Qs _ hcoh (.use q)).1
+  have h2 := (stepQ_spec S H valid Qs _ (coh_fresh S (publicCfgQ S valid c ops)) (.use q)).1
+  rw [hcfg] at h1
+  exact (List.cons.inj (h1.trans h2.symm)).1
+
+/-- Query methods are unobservable: the outputs of the reads and setter calls of a history are those of the same
+history with every query-method call removed. -/
+theorem C18_queries_unobservable (S : Spec Cfg Slot Val Field FVal) (H : Frame S)
+    (valid : Field → FVal → Cfg → Bool) (Qs : Q → Query Cfg Slot Val Ans) (c : Cfg)
+    (ops : List (QOp Slot Field FVal Q)) :
+    (runQ S valid Qs (fresh c) ops).1.filter (fun o => !o.isAns) =
+      (runQ S valid Qs (fresh c) (dropUse ops)).1 := by
+  rw [C18_query_history_spec S H valid Qs c ops, C18_query_history_spec S H valid Qs c (dropUse ops)]
+  exact expectedQ_dropUse S valid Qs ops c
+
+end query
+
+section world
+variable {Cfg Slot Val Field FVal Q Ans : Type} [DecidableEq Slot]
+
+/-- OBJECTS ARE ISOLATED.  In a process with several objects, any history of reads, setter calls (accepted or
+refused) and query-method calls addressed to OTHER objects leaves object `k` - settings and cache - exactly as it
+was, so every observation of `k` is unchanged.  (The specification has no class-level or module-level state; that
+the real classes have none either is what the `isolated` / `cross` / `order` cases of the harness test.) -/
+theorem C18_world_frame (S : Spec Cfg Slot Val Field FVal) (valid : Field → FVal → Cfg → Bool)
+    (Qs : Q → Query Cfg Slot Val Ans) (w : Nat → Obj Cfg Slot Val) (k : Nat)
+    (ops : List (Nat × QOp Slot Field FVal Q)) (h : ∀ p ∈ ops, p.1 ≠ k) (i : Slot) :
+    read S (runW S valid Qs w ops k) i = read S (w k) i := by
+  rw [runW_other S valid Qs k ops w h]
+
+end world
+
+/-- non-vacuity: two toy objects; three operations on object 0 leave the answer of object 1 alone -/
+example : (read toySpec (runW toySpec (fun _ _ _ => true) (fun (_ : Unit) => (⟨[0], fun c _ => c⟩ : Query Nat (Fin 2) Nat Nat))
+    (fun n => fresh (10 * n)) [(0, .set () 3), (0, .use ()), (0, .read 1)] 1) 1).1 = 11 := by decide
+
+/-- non-vacuity on the toy class: a query method loading both slots between reads, a refused and an accepted
+setter call; the reads answer as without the query, the query answers from the current settings -/
+example : (runQ toySpec (fun _ x _ => decide (x ≤ 100)) (fun (_ : Unit) => (⟨[1, 0], fun c vs => vs.foldl (· + ·) c⟩ : Query Nat (Fin 2) Nat Nat))
+    (fresh 5) [.use (), .read 1, .set () 500, .set () 7, .use (), .read 0]).1 =
+    [.ans 16, .val 6, .refused, .done, .ans 22, .val 7] := by decide
+
+/-- Defect shape "a query method converts the cached list" (a look-up method replacing the slot that the
+time-axis properties iterate by a set of the same elements): on the table the method is a getter `m()` whose
+value-dependent rewrite of slot 0 is a `refine` with a code id of its own.  The table machine does not execute
+value-dependent rewrites (its verdicts stay `ok`); it is condition T1 "one slot - one defining expression" that
+rejects the table - so the `decide`d well-formedness theorem of the class fails on such a tree, and the harness
+finds the failing history with a `use` operation between two reads. -/
+def toyConvert : ClassTable :=
+  { name := "ToyConvert", attrs := ["_stamps"], init := [0],
+    getters := [
+      { name := "moys", sites := [{ guarded := true, guard := [0], slots := [0], expr := 0, reads := [], clears := [] }],
+        direct := [0], clears := [] },
+      { name := "is_included()", sites := [{ guarded := true, guard := [0], slots := [0], expr := 0, reads := [], clears := [] }],
+        direct := [0], clears := [], refines := [(0, 1)] }],
+    setters := [] }
+
+theorem C18_query_rewrites_slot_counterexample_shape :
+    toyConvert.wellFormed = false ∧ toyConvert.oneExpr = false ∧
+    Lazy.runT toyConvert .empty [.get 0, .get 1, .get 0] = [.ok, .ok, .ok] := by
+  decide
+
+/-- AnalysisPeriod with its look-up method: `is_time_included()` is a getter of the regenerated table (it fills
+the two time-axis slots by the very block the properties use), so `C18_deps_AnalysisPeriod` and
+`C18_history_AnalysisPeriod` quantify over histories that call it between the reads; a sample history: -/
+example : (Gen.LazyDeps.tblAnalysisPeriod.getters.map (·.name)).contains "is_time_included()" = true := by
+  decide +kernel
 
 /-! ### (c) WindProfile -/
 
